@@ -253,6 +253,11 @@ var probeTable = []probeSpec{
 	{name: "JSONCtxNonce", omitEmpty: true, sink: "json-script-nonce", parent: "script", nonce: true, holes: 1},
 	{name: "ScriptCallNonce", omitEmpty: true, sink: "script-nonce", parent: "script", nonce: true, holes: 2},
 	{name: "ScriptAttrNonce", omitEmpty: true, sink: "script-nonce", parent: "script", nonce: true, holes: 1},
+	// sequences within one render: the same script as a component twice; as a component after a handler attribute already
+	// emitted its function; a function-less call (templ.JSFuncCall) as a component
+	{name: "ScriptTwiceNonce", omitEmpty: true, sink: "script-nonce (second use in the context)", parent: "script", nonce: true, holes: 3},
+	{name: "ScriptAfterAttrNonce", omitEmpty: true, sink: "script-nonce (component after handler attribute)", parent: "script", nonce: true, holes: 2},
+	{name: "ScriptFuncCallNonce", omitEmpty: true, sink: "script-nonce (JSFuncCall as component)", parent: "script", nonce: true, holes: 2},
 	{name: "ScriptGetNonce", sink: "script-nonce", parent: "script", nonce: true, holes: 1},
 	// onclick={ script(s) }: the call text is JavaScript (property C03); here only that it stays ONE attribute value
 	{name: "ScriptCallArg", sink: "script-call-attr", parent: "normal", holes: 2, anyVal: true},
